@@ -134,7 +134,9 @@ class CACGMM(_ProbabilisticModel):
 
         # first: sum above the speakers
         # second: sum above time frequency in log domain
-        log_likelihood = np.sum(scipy.special.logsumexp(log_pdf, axis=-2))
+        log_likelihood = np.sum(
+            scipy.special.logsumexp(log_pdf, axis=-2, b=self.weight)
+        )
         return log_likelihood
 
 
